@@ -609,6 +609,41 @@ def bip32_element_table(run, rid="R2c"):
     run.floor(rid, "accepting paths of BIP32Element.__init__", n_done, 2)
 
 
+def bip32_path_elements(run, rid="R2b"):
+    """The elements of a path are the pieces of its text, as they are (shared with C01 under a prefix)."""
+    P, A = run.P, run.A
+    from sa.prov import Prov
+    from sa.canon import canon_list_text
+    BP = P.cls("comm.bip32.BIP32Path")
+    ini = P.method(BP, "__init__")
+    g = A.cfg(ini, BP)
+    PVb = Prov(A)
+    # the expansion below follows bindings; a list changed in place between its binding and its use is not what its binding says
+    inplace = []
+    for n in A.own_nodes(ini):
+        if isinstance(n, (ast.Assign, ast.AugAssign)):
+            for t in (n.targets if isinstance(n, ast.Assign) else [n.target]):
+                if isinstance(t, ast.Subscript) and isinstance(t.value, ast.Name):
+                    inplace.append(norm(n)[:50])
+        if isinstance(n, ast.Call) and isinstance(n.func, ast.Attribute) and isinstance(n.func.value, ast.Name) and n.func.value.id != "self" \
+                and n.func.attr in ("append", "insert", "sort", "reverse", "pop", "remove", "extend", "clear", "__setitem__"):
+            inplace.append(norm(n)[:50])
+    run.check(rid, not inplace, "the pieces of the path text are not modified before they are parsed", key="BIP32Path.__init__|in-place", where=ini.loc(),
+              message=f"BIP32Path.__init__ changes a list in place ({inplace[:3]}): the elements parsed are no longer the '/'-separated pieces of the text as given "
+                      "(e.g. a marker added to some of them: the device is asked for another path than the one requested)")
+    # elements = one BIP32Element per '/'-separated piece of spec[2:], in order
+    forms = set()
+    for n in A.own_nodes(ini):
+        if isinstance(n, ast.Assign) and norm(n.targets[0]) == "self._elements":
+            for cn in g.nodes_of(n):
+                for x in PVb.expand_consistent(ini, BP, n.value, cn, stop=("spec",)):
+                    cl_ = canon_list_text(x)
+                    forms.add(tuple(cl_) if cl_ is not None else ("?" + x,))
+    run.check(rid, forms == {("map(BIP32Element(ELEM(spec[2:].split('/'))))",)},
+              "elements parsed by BIP32Element from spec[2:].split('/')", key="BIP32Path.__init__|element-parse",
+              where=ini.loc(), message=f"BIP32Path builds its elements as {sorted(forms)[:2]}: not one BIP32Element per '/'-separated element, in order")
+
+
 def _bip32(run, F):
     P, A = run.P, run.A
     run.rule("R2b", "Key id grammar: BIP32Path(spec) completes only if spec is a non-empty str starting "
@@ -617,6 +652,7 @@ def _bip32(run, F):
     BP = P.cls("comm.bip32.BIP32Path")
     BE = P.cls("comm.bip32.BIP32Element")
     ini = P.method(BP, "__init__")
+    bip32_path_elements(run, "R2b")
     facts = [f.text() for f in F.exit_facts(ini, BP)]
     for want, what in (("type(spec) == str", "type str"), ("len(spec) != 0", "non-empty"),
                        (("spec[:2] == 'm/'", "spec.startswith('m/')"), "prefix m/")):
@@ -656,7 +692,12 @@ def _bip32(run, F):
     ncount = 0
     Wc = Walker(A, ini, BP, catom, max_leaves=64)
     stc["W"] = Wc
-    for lf in Wc.walk(g.entry):
+    try:
+        count_leaves = list(Wc.walk(g.entry))
+    except AnalysisError as ex_:
+        count_leaves = []
+        run.note(f"BIP32Path.__init__: element-count table not decided ({ex_})")
+    for lf in count_leaves:
         if not any(k in lf.pc for k in ("ANY_COUNT", "COUNT_OK")):
             continue
         for val in completions({k: b for k, b in lf.pc.items() if k in ("ANY_COUNT", "COUNT_OK")}, ["ANY_COUNT", "COUNT_OK"]):
@@ -690,14 +731,3 @@ def _bip32(run, F):
     for want, what in (("type(spec) == str", "type str"), ("len(spec) != 0", "non-empty")):      # decimal digits and the 2^31 bound: rule R2c
         run.check("R2b", want in ef, f"BIP32Element requires {what}", key=f"BIP32Element.__init__|{what}",
                   where=ei.loc(), message=f"BIP32Element.__init__ can complete without `{want}`")
-    # elements = one BIP32Element per '/'-separated piece of spec[2:], in order
-    forms = set()
-    for n in A.own_nodes(ini):
-        if isinstance(n, ast.Assign) and norm(n.targets[0]) == "self._elements":
-            for cn in g.nodes_of(n):
-                for x in PVb.expand_consistent(ini, BP, n.value, cn, stop=("spec",)):
-                    cl_ = canon_list_text(x)
-                    forms.add(tuple(cl_) if cl_ is not None else ("?" + x,))
-    run.check("R2b", forms == {("map(BIP32Element(ELEM(spec[2:].split('/'))))",)},
-              "elements parsed by BIP32Element from spec[2:].split('/')", key="BIP32Path.__init__|element-parse",
-              where=ini.loc(), message=f"BIP32Path builds its elements as {sorted(forms)[:2]}: not one BIP32Element per '/'-separated element, in order")
